@@ -109,12 +109,12 @@ PLaw(n, fl, r) == CASE n = "builds" -> LawBuilds(r) [] n = "terminates" -> LawTe
                 [] n = "preview_eq_applied" -> LawPreviewEqApplied(fl, r)
 PFailed(fl, r) == {n \in Rng(PLawNames) : ~PLaw(n, fl, r)}
 \* conformance with the model (sp = Describe(maps), fl = flavour): same conflict families; a conflict-free transform
-\* yields the declared tree; a family without a resolver is never "resolved"
+\* yields the declared tree.  (What the resolvers do is not modelled: e.g. git's resolve_duplicate merges two directories by
+\* delete_contents / cancel_creation and can thereby clear an "overwrite", a family that has no resolver of its own.)
 GitDirs(fl, s) == IF fl = "git" THEN {[e EXCEPT !.ver = IF e.kind = "directory" THEN FALSE ELSE e.ver] : e \in s} ELSE s
 PDrift(sp, fl, r) == IF r.build # "ok" THEN {} ELSE
          (IF r.raw # sp.kinds[fl] THEN {"kinds"} ELSE {})
     \cup (IF sp.kinds[fl] = {} /\ r.apply = "ok" /\ GitDirs(fl, r.applied_full) # GitDirs(fl, sp.final[fl]) THEN {"final"} ELSE {})
-    \cup (IF sp.kinds[fl] \cap Unresolvable # {} /\ r.resolve = "clean" THEN {"unresolvable-resolved"} ELSE {})
 
 (* ---- design checks on the declarative meaning *)
 \* a transform without raw conflicts declares a well-formed tree: every live entry is rooted, paths are unique, every
